@@ -29,4 +29,22 @@ def referenceDetect (mean isWaves : Bool) (m : Nat) (rs : List Arr) : List Arr :
   if mean && !isWaves then [divArr' (rs.foldl addArr (zeros m)) rs.length] else rs
 where divArr' (a : Arr) (n : Nat) : Arr := if n > 1 then divArr a n else a
 
+/-! ### shapes of the eager S-matrix build (`SMatrix.build(lazy=False)`) -/
+
+/-- numpy's rule for `target[...] = source`: after right alignment every source dimension equals the target's or is 1,
+and the source has no extra leading dimensions other than 1 -/
+def broadcastsInto (src dst : List Nat) : Bool :=
+  let rs := src.reverse
+  let rd := dst.reverse
+  (List.zipWith (fun a b => a == b || a == 1) rs rd).all id && (rs.drop rd.length).all (· == 1)
+
+/-- the array `SMatrix.build(lazy=False)` allocates: `ensemble_shape + (len(self),) + downsampled_gpts` -/
+def allocatedShape (ensemble : List Nat) (nWaveVectors : Nat) (gpts : Nat × Nat) : List Nat :=
+  ensemble ++ [nWaveVectors, gpts.1, gpts.2]
+
+/-- the block `_build_s_matrix` returns for one ensemble member: the multislice of the plane waves, with a leading exit-plane
+axis when the potential has more than one exit plane -/
+def builtBlockShape (nExitPlanes nWaveVectors : Nat) (gpts : Nat × Nat) : List Nat :=
+  (if nExitPlanes > 1 then [nExitPlanes] else []) ++ [nWaveVectors, gpts.1, gpts.2]
+
 end AbtemVerif.PrismEnsemble
